@@ -226,8 +226,21 @@ func StartNode(nc NodeConfig) (*Node, error) {
 		core.Close()
 	}
 
-	n.cs = chain.NewChainService(cfg)
 	n.jr = NewJournal()
+	if nc.JournalFromStart {
+		// ChainDB.Init repairs the height index from a reorg marker before any wrapper can be installed on
+		// the service's store: run exactly that step first on a journaled store (the service's own Init
+		// then finds it done), so that its write units are crash points too.
+		wrap := n.jr.Wrap("chain")
+		if err := chain.VerifRecoverChainDB(cfg.DbType, cfg.DataDir, func(d db.DB) db.DB {
+			w := wrap(d)
+			n.jr.Start()
+			return w
+		}); err != nil {
+			return nil, fmt.Errorf("start-up recovery of the chain DB: %v", err)
+		}
+	}
+	n.cs = chain.NewChainService(cfg)
 	// store wrappers go in before anything captures cs.SDB()/cs.CDB()
 	n.cs.VerifWrapStore(n.jr.Wrap("chain"))
 	n.cs.SDB().VerifWrapStore(n.jr.Wrap("state"))
@@ -254,7 +267,7 @@ func StartNode(nc NodeConfig) (*Node, error) {
 	}
 	n.hub.Register(comps...)
 	n.hub.Start()
-	if nc.JournalFromStart {
+	if nc.JournalFromStart && !n.jr.On() {
 		n.jr.Start()
 	}
 	// first message: makes ChainService.Receive run Recover()
